@@ -34,6 +34,7 @@ THEOREMS = [
     "Optyx.Props.C05.names_eq_of_sorted",
     "Optyx.Props.C05.extractLP_sound",
     "Optyx.Props.Glue.lpRows_table",
+    "Optyx.Props.C05.shortcutInv_iff_sizes",
 ]
 ASSUMPTIONS = [
     "theorems are over the reals (NumAlg ℝ), the executable model over exact rationals; float rounding / overflow of "
@@ -1050,7 +1051,11 @@ def view_cases(rng):
         x2 = VectorVariable("x2", 3)                            # digits inside base names, prefixes of one another
         x10 = VectorVariable("x10", 2)
         xx = VectorVariable("x", 5, lb=0, ub=3)                 # a clone: same names, other objects
+        from optyx.core.matrices import diag_matrix
+        dv = VectorVariable("d", 3, lb=0, ub=4)
+        D = diag_matrix(dv)                                     # rows / columns are NOT in natural name order
         views = {
+            "D[0,:]": D[0, :], "D[1,:]": D[1, :], "D[2,:]": D[2, :], "D[:,1]": D[:, 1], "D[1,::-1]": D[1, ::-1], "D.diag": D.diagonal(),
             "x": x, "x[::2]": x[::2], "x[::-1]": x[::-1], "x[1:4]": x[1:4], "x[1:5][1:3]": x[1:5][1:3], "x[::-1][::2]": x[::-1][::2],
             "x[4:5]": x[4:5], "x[3:0:-1]": x[3:0:-1], "M[0,:]": M[0, :], "M[:,2]": M[:, 2], "M.diag": M.diagonal(), "M.T[0,:]": M.T[0, :],
             "M[0:2,1:3][1,:]": M[0:2, 1:3][1, :], "M[::2,::2][:,1]": M[::2, ::2][:, 1], "M[0:2,:].T[1,:]": M[0:2, :].T[1, :], "M[::-1,0]": M[::-1, 0],
@@ -1064,7 +1069,8 @@ def view_cases(rng):
 
     keys = ["x", "x[::2]", "x[::-1]", "x[1:4]", "x[1:5][1:3]", "x[::-1][::2]", "x[4:5]", "x[3:0:-1]", "M[0,:]", "M[:,2]", "M.diag", "M.T[0,:]",
             "M[0:2,1:3][1,:]", "M[::2,::2][:,1]", "M[0:2,:].T[1,:]", "M[::-1,0]", "S[1,:]", "S[:,0]", "S.diag", "S.T[2,:]", "S[0:2,0:2][:,1]",
-            "R[0,:]", "R[0,::-1]", "C[:,0]", "C.T[0,:]", "z", "z[::-1]", "z[9:12]", "i", "i[::-1]", "b", "x2", "x10", "xx", "xx[::-1]"]
+            "R[0,:]", "R[0,::-1]", "C[:,0]", "C.T[0,:]", "z", "z[::-1]", "z[9:12]", "i", "i[::-1]", "b", "x2", "x10", "xx", "xx[::-1]",
+            "D[0,:]", "D[1,:]", "D[2,:]", "D[:,1]", "D[1,::-1]", "D.diag"]
     cs = [1.0, -2.0, 0.5, 4.0, 3.0, -1.0, 2.0, 8.0, -0.5, 1.5, 6.0, -3.0]
     nodes = [
         ("vs", lambda v: v.sum()), ("lc", lambda v: np.array(cs[:len(v)]) @ v), ("lc-k", lambda v: np.array(cs[:len(v)]) @ v - 2),
